@@ -29,6 +29,10 @@ def check(repo: Repo, rep, tier):
     from .C16 import fmt_shell
 
     fmt_shell(repo, rep)
+    from .C15 import fmt_degrade, fmt_no_cache
+
+    fmt_no_cache(repo, rep)
+    fmt_degrade(repo, rep)
     stale_bindings(repo, rep, {"config"}, "e.g. a copied `config` never sees the format-command of the session, so whole-file and fragment formatting disagree")
 
 
@@ -153,9 +157,31 @@ def mode_table(repo: Repo, rep):
                 if not any(isinstance(x, ast.Name) and x.id == pathp for a in c.args for x in ast.walk(a)):
                     rep.violation("R-MODE-TABLE", f, c, "find_pyproject_toml is not asked for the path of the edited file", construct="find-arg")
                     continue
+                # black starts the search at the *sources* (first argument); with an empty tuple it starts at the current directory and uses
+                # the second argument only to replace a source named "-"
+                srcs = c.args[0] if c.args else None
+                in_srcs = srcs is not None and any(isinstance(x, ast.Name) and x.id == pathp for x in ast.walk(srcs))
+                dash = srcs is not None and any(isinstance(x, ast.Constant) and x.value == "-" for x in ast.walk(srcs)) and len(c.args) > 1
+                if not (in_srcs or dash):
+                    rep.violation(
+                        "R-MODE-TABLE",
+                        f,
+                        c,
+                        f"`{short(c, 50)}` hands the file only as stdin_filename with no source named \"-\": black ignores it and searches the configuration from the current working directory - "
+                        "after a monkeypatch.chdir() in a test, or with pytest started outside the project, the file is formatted with black's defaults instead of the project's [tool.black] options",
+                        construct="find-from-cwd",
+                    )
+                    continue
             rep.ok("R-MODE-TABLE", f, calls[0], f"{fn} is black's own")
         else:
             rep.violation("R-MODE-TABLE", f, f.node, f"file_mode_for_path does not use black's own `{fn}`: the configuration inline-snapshot formats with can differ from the one `black` itself uses for that file (e.g. a nearer pyproject.toml without [tool.black])", construct=f"lookup:{fn}")
+    # the Mode starts from black's defaults: nothing is put into the constructor that the project's black configuration does not say
+    for c in [x for x in body_nodes(f.node) if isinstance(x, ast.Call) and norm(x.func).split(".")[-1] in ("FileMode", "Mode")]:
+        own = [a for a in list(c.args) + [k.value for k in c.keywords] if "config" not in norm(a)]
+        if own:
+            rep.violation("R-MODE-TABLE", f, c, f"`{short(c, 60)}` fixes an option ({short(own[0], 40)}) that does not come from the project's black configuration: files that `black` itself accepts are judged 'not formatted' (the final pass is skipped) or are re-wrapped differently", construct="mode-ctor-args")
+        else:
+            rep.ok("R-MODE-TABLE", f, c, "Mode() starts from black's defaults")
     found = {}
     for n in cfg.stmts(ast.Assign):
         for t in n.ast.targets:
